@@ -324,8 +324,19 @@ func ReqDesc(w *dyn.World) protoreflect.MessageDescriptor { return w.MsgDesc("rt
 func RspDesc(w *dyn.World) protoreflect.MessageDescriptor { return w.MsgDesc("rt.Rsp") }
 
 // VerbMatches reports whether a rule verb (kind) accepts a request verb.
+// HTTP method tokens are case-sensitive: a rule written with one of the five google.api.http
+// pattern fields (get, put, post, delete, patch) carries exactly the upper-case token. For custom
+// kinds the spelling a request must use is the implementation's choice (larking stores them in
+// upper case), so any case is admitted there.
 func VerbMatches(ruleVerb, reqVerb string) bool {
-	return ruleVerb == "*" || strings.EqualFold(ruleVerb, reqVerb)
+	if ruleVerb == "*" {
+		return true
+	}
+	switch up := strings.ToUpper(ruleVerb); up {
+	case "GET", "PUT", "POST", "DELETE", "PATCH":
+		return up == reqVerb
+	}
+	return strings.EqualFold(ruleVerb, reqVerb)
 }
 
 // Expected builds the messages a binding's captures may denote: every path
